@@ -4,6 +4,7 @@ from __future__ import annotations
 import copy
 
 import common as C
+import re_probes as RP
 import engine_common as E
 import engine_extract
 from engine_common import M, seq
@@ -411,7 +412,9 @@ class Gen:
 
 
 def run(ctx, model=True):
-    return E.run_property(ctx, "C12", oracle, gen=Gen(), quick=160, thorough=4000, model=model)
+    res = E.run_property(ctx, "C12", oracle, gen=Gen(), quick=160, thorough=4000, model=model)
+    RP.add_to(res, ["reused-message", "locate"])
+    return res
 
 
 def run_impl_only(ctx):
@@ -419,4 +422,7 @@ def run_impl_only(ctx):
 
 
 def replay(ctx, data):
+    r = RP.replay(data)
+    if r is not None:
+        return r
     return E.replay_property(ctx, data, oracle)
